@@ -27,7 +27,8 @@ structure Fail where
 structure Component (σ μ : Type) where
   init : List String → σ                       -- from the `case` line's arguments
   /-- model step: new state and the observation the model predicts (`none`: op has no output,
-  `some "bad-op"`: the model does not know this operation). -/
+  `some "bad-op"`: the model does not know this operation, `some "*"`: the model leaves this
+  input unspecified — any implementation answer is accepted, the monitor still runs). -/
   step : σ → List String → List (List String) → σ × Option String   -- state, op tokens, ext lines
   minit : List String → μ
   /-- monitor step on (op, ext lines, implementation obs) -/
@@ -61,7 +62,7 @@ partial def runLoop {σ μ : Type} (c : Component σ μ) (h : IO.FS.Stream) : IO
       L := { L with st := st' }
       -- model comparison (only until the first mismatch of the case)
       if L.mismatch.isNone then
-        if exp != obs then
+        if exp != obs && exp != some "*" then
           L := { L with mismatch := some s!"line={opLine} op={" ".intercalate op} model={exp.getD "-"} impl={obs.getD "-"}" }
       let (ms', fs) := c.mon L.ms op exts obs
       let mut arr := L.fails
